@@ -352,7 +352,30 @@ func init() {
 		vc.recordCallSyms("github.com/go-jose/go-jose/v4.JSONWebSignature.Verify", fn.Signature, []Term{payload, errv})
 		return []Term{payload, errv}, true
 	}
+	// url.Values.Get: a function of the map's contents and the key (first value or "")
+	extHandlers["net/url.Values.Get"] = func(fr *Frame, st *State, call ssa.CallInstruction, fn *ssa.Function, a []Term) ([]Term, bool) {
+		vc := fr.vc
+		if fn.Signature.Recv() == nil {
+			return nil, false
+		}
+		mt, ok := types.Unalias(fn.Signature.Recv().Type()).Underlying().(*types.Map)
+		if !ok {
+			return nil, false
+		}
+		return []Term{vc.valuesGet(st, a[0], mt, a[1])}, true
+	}
 	ifaceHandlers = map[string]ifaceHandler{}
+}
+
+// valuesGet: url.Values(m).Get(key) as an uninterpreted function of the map's contents.
+func (vc *VC) valuesGet(st *State, m Term, mt *types.Map, key Term) Term {
+	vc.Assumed["url.Values.Get is a function of the map contents and the key (value slices are not mutated in place)"] = true
+	ks, vs := vc.sortOf(mt.Key()), vc.sortOf(mt.Elem())
+	kv, kin := mapKeys(mt)
+	cur := vc.rawLoadSort(st, kv, "(Array "+ks+" "+vs+")", m)
+	curin := vc.rawLoadSort(st, kin, "(Array "+ks+" Bool)", m)
+	vc.sc.DeclFun("valuesGet", []string{"(Array " + ks + " " + vs + ")", "(Array " + ks + " Bool)", "String"}, "String")
+	return Ite(Eq(m, "nilref"), StrLit(""), sx("valuesGet", cur, curin, key))
 }
 
 func typesPointerElem(t types.Type) (types.Type, bool) {
